@@ -24,6 +24,7 @@ import (
 type FieldOrderSpec struct {
 	Pkg, Target, Line string
 	Props             []string
+	Decodes           bool // `decodes T.M`: the decoding method M of T stores what it decodes in its receiver
 }
 
 func parseFieldOrderBlocks(pkgPath string, lines, where []string) []*FieldOrderSpec {
@@ -36,11 +37,11 @@ func parseFieldOrderBlocks(pkgPath string, lines, where []string) []*FieldOrderS
 			continue
 		}
 		switch f[0] {
-		case "fieldorder":
+		case "fieldorder", "decodes":
 			if len(f) < 2 {
 				continue
 			}
-			cur = &FieldOrderSpec{Pkg: pkgPath, Target: f[1], Line: where[i]}
+			cur = &FieldOrderSpec{Pkg: pkgPath, Target: f[1], Line: where[i], Decodes: f[0] == "decodes"}
 			out = append(out, cur)
 		case "property":
 			if cur != nil {
@@ -57,7 +58,9 @@ func fieldOrderObligations(prog *Program, id string) []simpleObligation {
 	var out []simpleObligation
 	for _, fs := range prog.FieldOrder {
 		for _, p := range fs.Props {
-			if p == id {
+			if p == id && fs.Decodes {
+				out = append(out, checkDecodes(prog, fs)...)
+			} else if p == id {
 				out = append(out, checkFieldOrder(prog, fs)...)
 			}
 		}
@@ -184,4 +187,37 @@ func checkFieldOrder(prog *Program, fs *FieldOrderSpec) []simpleObligation {
 		so.Detail = fmt.Sprintf("common order [%s] (written: %v, read: %v)", strings.Join(cw, " "), ws, rs)
 	}
 	return []simpleObligation{so}
+}
+
+// Structural contract "a decoder decodes into the caller's object" (property C08):
+//
+//	//@ decodes <Type>.<Method>
+//
+// UnmarshalBinary / UnmarshalJSON / ReadFrom store what they decode in their receiver.  With a VALUE
+// receiver the method works on a private copy and the caller's object keeps its old contents, without
+// any error (finding F41: rlwe.Scale.UnmarshalBinary).  The contract: the receiver is a pointer, or a
+// named map type (whose entries are shared with the caller).
+func checkDecodes(prog *Program, fs *FieldOrderSpec) []simpleObligation {
+	short := shortPkg(fs.Pkg + "." + fs.Target)
+	name := "decodes/" + short
+	fi := prog.Funcs[fs.Pkg+"."+fs.Target]
+	if fi == nil || fi.Decl.Recv == nil || len(fi.Decl.Recv.List) == 0 {
+		return []simpleObligation{{Name: name + "/target", Func: short, File: fs.Line, OK: false, Detail: "method not found (renamed or removed?)"}}
+	}
+	rt := fi.Pkg.TypesInfo.TypeOf(fi.Decl.Recv.List[0].Type)
+	ok := false
+	detail := ""
+	if rt != nil {
+		switch u := rt.Underlying().(type) {
+		case *types.Pointer:
+			ok = true
+			detail = "pointer receiver"
+		case *types.Map:
+			ok = true
+			detail = "map receiver (entries shared with the caller)"
+		default:
+			detail = fmt.Sprintf("the receiver has the value type %s (%T): the method decodes into a private copy and the caller's object is left unchanged", rt.String(), u)
+		}
+	}
+	return []simpleObligation{{Name: name + "/receiver", Func: short, File: fs.Line, OK: ok, Detail: detail}}
 }
